@@ -251,9 +251,11 @@ pub fn gen_network(rng: &mut Rng, o: &NetOpts) -> Vec<Link> {
                 if rng.chance(0.4) && b > a {
                     // two abutting sections
                     let mid = snap((a + b) / 2.0, o.grid);
-                    vec![(a, mid, Rng::round_sig(rng.range(1e6, 8e6), 3)), (mid, b, Rng::round_sig(rng.range(1e6, 8e6), 3))]
+                    // (a de-energised / neutral section - zero power - is a legal section like any other)
+                    let p2 = if rng.chance(0.25) { 0.0 } else { Rng::round_sig(rng.range(1e6, 8e6), 3) };
+                    vec![(a, mid, Rng::round_sig(rng.range(1e6, 8e6), 3)), (mid, b, p2)]
                 } else {
-                    vec![(a, b, Rng::round_sig(rng.range(1e6, 8e6), 3))]
+                    vec![(a, b, if rng.chance(0.12) { 0.0 } else { Rng::round_sig(rng.range(1e6, 8e6), 3) })]
                 }
             } else {
                 vec![]
